@@ -115,6 +115,10 @@ class MethodBase(Contract):
             kctx = self.kernel_ctx(c, st)
             rv = tuple(me[k] for k in self.fields)
             for nm, f in kc.posts(st, rv, kctx):
+                if nm == 'fresh_arrays':
+                    # at method level the receiving object may keep an array of its OWN (e.g. an unchanged support); what
+                    # C09 forbids is sharing storage with the OPERAND, which the no_aliasing clauses below state
+                    continue
                 out.append(('sum.' + nm, f))
             for k in self.fields:
                 mine, theirs = me[k], st.heap[c.rec2.id][k]
